@@ -22,8 +22,8 @@ build_race() {
 case "${1:-}" in
   build) build; build_cli; build_inst; build_race ;;
   C16) build_inst; build_race; exec "$BIN/vcheck-inst" run "$1" "${2:-quick}" ;;
-  C09|C15) build_inst; exec "$BIN/vcheck-inst" run "$1" "${2:-quick}" ;;
+  C09|C14|C15) build_inst; exec "$BIN/vcheck-inst" run "$1" "${2:-quick}" ;;
   C20) build; build_cli; exec "$BIN/vcheck" run "$1" "${2:-quick}" ;;
-  replay) case "$(basename "$2")" in C09-*|C15-*|C16-*) build_inst; exec "$BIN/vcheck-inst" replay "$2" ;; C20-*) build; build_cli; exec "$BIN/vcheck" replay "$2" ;; *) build; exec "$BIN/vcheck" replay "$2" ;; esac ;;
+  replay) case "$(basename "$2")" in C09-*|C14-*|C15-*|C16-*) build_inst; exec "$BIN/vcheck-inst" replay "$2" ;; C20-*) build; build_cli; exec "$BIN/vcheck" replay "$2" ;; *) build; exec "$BIN/vcheck" replay "$2" ;; esac ;;
   *) build; exec "$BIN/vcheck" run "$1" "${2:-quick}" ;;
 esac
